@@ -86,6 +86,20 @@ class T:
         return Shape("const", value=value)
 
     @staticmethod
+    def keymap(typ, key, value):
+        """dict with symbolic keys of which ONE arbitrary entry (key, maybe present, value) is tracked"""
+        return Shape("keymap", typ=typ, key=key, value=value)
+
+    @staticmethod
+    def symset():
+        return Shape("symset")
+
+    @staticmethod
+    def symdeque(maxlen_name=None):
+        """bounded deque of ints; maxlen is the int symbol `<name>.maxlen`"""
+        return Shape("symdeque")
+
+    @staticmethod
     def modconst(module, name):
         """the value of a module-level constant of the repository (e.g. a table)"""
         return Shape("modconst", module=module, name=name)
@@ -129,6 +143,9 @@ def expand_oneof(shape):
             combos = [dict(c, **{f: ((x, "optional") if opt else x)}) for c in combos for x in alts]
         return [Shape("dict", entries=c, open=shape.open) for c in combos]
     return [shape]
+
+
+CLASS_SHAPES = {}      # class qual -> default shape of values of that class (filled by the sidecar shape modules)
 
 
 class Maker:
@@ -176,11 +193,35 @@ class Maker:
     def class_shape(self, ci, depth=0):
         if depth > 6:
             raise Unsupported("recursive shape")
+        if ci.qual in CLASS_SHAPES:
+            return CLASS_SHAPES[ci.qual]
         if ci.is_enum:
             return T.enum(ci.qual)
         if ci.is_dataclass and ci.frozen:
             return Shape("rec", qual=ci.qual, fields={})
         return Shape("obj", qual=ci.qual, fields={})
+
+    def resolve(self, shape, depth=0):
+        """materialise annotation-derived fields so that nested `oneof` alternatives become visible"""
+        if depth > 8 or not isinstance(shape, Shape):
+            return shape
+        k = shape.kind
+        if k == "opt":
+            return Shape("opt", inner=self.resolve(shape.inner, depth + 1))
+        if k == "oneof":
+            return Shape("oneof", alts=[self.resolve(a, depth + 1) for a in shape.alts])
+        if k in ("tuple", "list"):
+            return Shape(k, items=[self.resolve(i, depth + 1) for i in shape.items])
+        if k in ("rec", "obj"):
+            ci = self.e.repo.class_by_qual(shape.qual)
+            fields = dict(shape.fields)
+            if ci.is_dataclass:
+                for fi in self.e.repo.all_fields(ci):
+                    if fi.name not in fields:
+                        decl = [c for c in self.e.repo.mro(ci) if any(g is fi for g in c.fields)][0]
+                        fields[fi.name] = self.from_annotation(decl.module, fi.annotation)
+            return Shape(k, qual=shape.qual, fields={n: self.resolve(f, depth + 1) for n, f in fields.items()})
+        return shape
 
     # ------------------------------------------------------------------ make
     def make(self, st, shape, name):
@@ -288,6 +329,19 @@ class Maker:
         if k == "opaque":
             sort = z3.DeclareSort("Obj_" + shape.typ)
             return st, Opaque(shape.typ, z3.Const(name + ".id", sort))
+        if k == "keymap":
+            sort = z3.DeclareSort("Obj_" + shape.typ)
+            o = Opaque(shape.typ, z3.Const(name + ".id", sort))
+            st, key = self.make(st, shape.key, name + ".key0")
+            st, val = self.make(st, shape.value, name + ".value0")
+            g = dict(st.ghost)
+            g["map:" + str(o.ident)] = ((key, z3.Bool(name + ".has0"), val),)
+            return st._clone(ghost=g), o
+        if k == "symset":
+            return e.make_symset(st, name)
+        if k == "symdeque":
+            ml = e.T.const(name + ".maxlen")
+            return e.make_symdeque(st, name, ml)
         raise Unsupported(f"shape {k}")
 
     # ------------------------------------------------------------------ concretise
@@ -364,6 +418,20 @@ class Maker:
             return {"$dict": out}
         if k == "opaque":
             return {"$opaque": shape.typ}
+        if k == "keymap":
+            ent = []
+            if z3.is_true(ev(z3.Bool(name + ".has0"))):
+                ent.append([self.concretise(model, shape.key, name + ".key0"),
+                            self.concretise(model, shape.value, name + ".value0")])
+            return {"$keymap": ent}
+        if k == "symdeque":
+            lo = ev(z3.Int(name + ".lo")).as_long()
+            hi = ev(z3.Int(name + ".hi")).as_long()
+            a = z3.Const(name + ".items", z3.ArraySort(z3.IntSort(), e.T.val(0).sort()))
+            items = [e.T.model_int(model, z3.Select(a, z3.IntVal(i))) for i in range(lo, min(hi, lo + 64))]
+            return {"$deque": items, "maxlen": e.T.model_int(model, e.T.const(name + ".maxlen"))}
+        if k == "symset":
+            return {"$symset": name}
         raise Unsupported(f"concretise {k}")
 
 
